@@ -240,7 +240,8 @@ def pcDelta_grouped(df, by, seq_columns, **kwargs):
     def pcDelta_within_group(dfg):
         index = kwargs.get("bins")
         if isinstance(index, int):
-            index = [index]
+            # bins=0 (coincidence probability) or a number of bins: no bin edges to label the result with
+            index = None
         if not index is None:
             index = index[:-1]
         return pd.Series(pcDelta(dfg[seq_columns], **kwargs), name="Delta", index=index)
